@@ -10,6 +10,7 @@ CFG = {
     "gen": ["params", "pow"],
     "overlay": ["consensus/aquahash/access.go"],
     "trivial_outputs": ["panic"],
+    "min_cases": 5000,
     "timeout": {"quick": 900, "thorough": 3000},
     "rule": "VerifySeal (real engine, real argon2id at 1/16/32 KiB) on random headers of versions 2-4 with difficulties 1, 0, negative, 2, 2^256-1, 2^256, 2^256+1, random; "
             "targets placed exactly on and next to the computed hash (target = H-1, H, H, H+1 by replacing the numerator N of N/difficulty through an overlay accessor after hashing - "
